@@ -438,7 +438,7 @@ func (c *Ctx) enterBlock(s *State, fr *Frame) bool {
 		for phi, v := range phiVals {
 			fr.regs[phi] = v
 			if phi.Comment != "" {
-				fr.src[phi.Comment] = v
+				fr.src[srcPhiName(phi.Comment)] = v
 			}
 		}
 		fr.idx = nphi
@@ -455,7 +455,7 @@ func (c *Ctx) enterBlock(s *State, fr *Frame) bool {
 		for phi, v := range phiVals {
 			fr.regs[phi] = v
 			if phi.Comment != "" {
-				fr.src[phi.Comment] = v
+				fr.src[srcPhiName(phi.Comment)] = v
 			}
 		}
 		c.bindRangeIdx(s, fr, b, ord)
@@ -474,18 +474,19 @@ func (c *Ctx) enterBlock(s *State, fr *Frame) bool {
 			}
 		}
 		// loop frame
-		c.checkFrame(s, snap.heap, c.loopMods(s, fr, lc, snap), snap.allocBase, "loopframe", fmt.Sprintf("loop%d", ord))
+		c.checkFrame(s, snap.heap, snap.mods, snap.allocBase, "loopframe", fmt.Sprintf("loop%d", ord))
 		return false
 	}
 	// entering the loop from outside
 	for phi, v := range phiVals {
 		fr.regs[phi] = v
 		if phi.Comment != "" {
-			fr.src[phi.Comment] = v
+			fr.src[srcPhiName(phi.Comment)] = v
 		}
 	}
 	c.bindRangeIdx(s, fr, b, ord)
-	preSnap := &loopSnap{heap: s.snapshot(), allocBase: c.allocTerm(s)}
+	// loop frames are relative to function entry: anything allocated since function entry may be modified by the loop
+	preSnap := &loopSnap{heap: s.snapshot(), allocBase: "alloc0"}
 	env := c.loopEnv(s, fr, preSnap)
 	if lc != nil {
 		for i, inv := range lc.Invariants {
@@ -494,6 +495,8 @@ func (c *Ctx) enterBlock(s *State, fr *Frame) bool {
 	} else {
 		c.noteOnce(fmt.Sprintf("loop #%d of %s has no invariant (treated as true)", ord, fr.fn.Name()))
 	}
+	// modifies set is evaluated in the pre-loop state (names refer to values on loop entry)
+	mods := c.loopMods(s, fr, lc, preSnap)
 	// havoc: phis, locals assigned in loop, heaps
 	for phi := range phiVals {
 		v := c.freshVal(s, phiName(phi), phi.Type())
@@ -503,7 +506,7 @@ func (c *Ctx) enterBlock(s *State, fr *Frame) bool {
 		}
 		fr.regs[phi] = v
 		if phi.Comment != "" {
-			fr.src[phi.Comment] = v
+			fr.src[srcPhiName(phi.Comment)] = v
 		}
 	}
 	c.bindRangeIdx(s, fr, b, ord)
@@ -518,9 +521,8 @@ func (c *Ctx) enterBlock(s *State, fr *Frame) bool {
 	c.assume(s, fmt.Sprintf("(>= %s %s)", nb, c.allocTerm(s)))
 	s.allocBase = nb
 	s.allocCnt = 0
-	mods := c.loopMods(s, fr, lc, preSnap)
-	c.havocMods(s, mods, preSnap.allocBase)
-	snap := &loopSnap{heap: s.snapshot(), allocBase: c.allocTerm(s)}
+	c.havocLoop(s, mods, preSnap.allocBase)
+	snap := &loopSnap{heap: s.snapshot(), allocBase: preSnap.allocBase, mods: mods}
 	env = c.loopEnv(s, fr, snap)
 	if lc != nil {
 		for _, inv := range lc.Invariants {
@@ -537,9 +539,18 @@ func (c *Ctx) enterBlock(s *State, fr *Frame) bool {
 
 func phiName(p *ssa.Phi) string {
 	if p.Comment != "" {
-		return p.Comment
+		return srcPhiName(p.Comment)
 	}
 	return p.Name()
+}
+
+// srcPhiName maps go/ssa's synthetic phi comments to identifiers usable in invariants.
+func srcPhiName(c string) string {
+	switch c {
+	case "rangeint.iter":
+		return "iter"
+	}
+	return c
 }
 
 func loopLabel(ord int, cl *Clause, i int) string {
@@ -604,6 +615,7 @@ func (c *Ctx) loopEnv(s *State, fr *Frame, snap *loopSnap) *SpecEnv {
 	}
 	env.old = map[string]string{} // old() in loop invariants refers to function entry
 	env.oldIsEntry = true
+	env.useSrc = true
 	return env
 }
 
@@ -632,6 +644,8 @@ func (c *Ctx) loopMods(s *State, fr *Frame, lc *LoopContract, snap *loopSnap) []
 		}
 	}
 	env.heap = snap.heap
+	env.useSrc = true
+	env.old = map[string]string{}
 	return c.evalMods(env, cls)
 }
 
@@ -1113,6 +1127,12 @@ func (c *Ctx) unop(s *State, fr *Frame, x *ssa.UnOp) []*State {
 			}
 		} else if st, ok := v.(StructV); ok {
 			c.typeRangeAssume(s, st)
+		} else if iv, ok := v.(IfaceV); ok {
+			if g, isG := x.X.(*ssa.Global); isG && g.Pkg != nil && !strings.HasPrefix(g.Pkg.Pkg.Path(), c.eng.modPath) || isG && isErrVarName(g.Name()) {
+				// package-level error variables (io.EOF, ErrXxx) are initialised once and never nil
+				c.assumptions["package-level error variables (io.EOF, Err*) are non-nil and never reassigned"] = true
+				c.assume(s, fmt.Sprintf("(not (= %s 0))", iv.Tag))
+			}
 		}
 		fr.regs[x] = v
 	case token.NOT:
@@ -1438,7 +1458,7 @@ func (c *Ctx) makeInterface(s *State, v Val, from types.Type, to types.Type) Val
 			// bit-vector payload
 			if ii, ok := isIntType(from); ok {
 				if ii.signed {
-					unsup("boxing signed bv")
+					return IfaceV{tag, "rnil", fmt.Sprintf("(bv2nat (bvadd %s %s))", x.T, c.ar.lit(pow2(ii.bits-1), ii)), to}
 				}
 				return IfaceV{tag, "rnil", fmt.Sprintf("(bv2nat %s)", x.T), to}
 			}
@@ -1869,4 +1889,8 @@ func (c *Ctx) ptrFact(sc Scalar) string {
 		return "true"
 	}
 	return fmt.Sprintf("(or (= %s rnil) (= (dyntype %s) %d))", sc.T, sc.T, c.typeID(pt.Elem()))
+}
+
+func isErrVarName(n string) bool {
+	return strings.HasPrefix(n, "Err") || strings.HasPrefix(n, "err") || n == "EOF"
 }
